@@ -6,6 +6,7 @@ mod api;
 mod build;
 mod coding;
 mod d_lzma;
+mod d_lzma2;
 mod d_stream;
 mod d_xz;
 mod io;
@@ -124,6 +125,17 @@ fn main() {
             }
             finish(rep, &a);
         }
+        "lzma2" => {
+            let mut rep = Report::new("lzma2");
+            if let Some(p) = a.get("export") {
+                d_lzma2::replay_export(p, &prop, seed, a.num("limit", 60000) as usize, &mut rep);
+            }
+            let w = a.num("walks", 0) as usize;
+            if w > 0 {
+                d_lzma2::walks(&prop, seed, w, &mut rep);
+            }
+            finish(rep, &a);
+        }
         "xzlib" => {
             let lib = d_xz::payload_lib();
             let v: Vec<serde_json::Value> = lib.iter().map(|(p, o)| serde_json::json!({"plen": p.len(), "ulen": o.len()})).collect();
@@ -151,6 +163,7 @@ fn main() {
                 "lzma" => d_lzma::replay_value(case, &prop, &mut rep),
                 "stream" => d_stream::replay_value(case, &prop, &mut rep),
                 "xz" | "xzbytes" => d_xz::replay_value(case, &prop, &mut rep),
+                "lzma2" => d_lzma2::replay_value(case, &prop, &mut rep),
                 k => {
                     eprintln!("unknown case kind {}", k);
                     std::process::exit(2);
